@@ -35,6 +35,8 @@ const PRE_O3: &[&str] = &["o3 = {@<: |o| 1, @==: |o| 1, @>: |o| 'x'}"];
 const PRE_O4: &[&str] = &["o4 = {@next: || throw 'next'}"];
 const PRE_O5: &[&str] = &["o5 = {@iterator: || 5}"];
 const PRE_O6: &[&str] = &["o6 = {@call: || 1, @+: |o| self, @size: || 1e30}"];
+const PRE_O7: &[&str] = &["o7 = {@iterator: || self}"];
+const PRE_O8: &[&str] = &["reg = {}", "o8 = {@iterator: || reg.b}", "o9 = {@iterator: || reg.a}", "reg.a = o8", "reg.b = o9"];
 const PRE_LO: &[&str] = &["l = [3, 1, 2]", "lo = [{@<: |o| l.push(1), @==: |o| l.clear()}, {@<: |o| l.pop(), @==: |o| l.clear()}]"];
 
 const fn it(expr: &'static str, pre: &'static [&'static str], ty: Ty, reduced: bool) -> Item {
@@ -144,6 +146,11 @@ const OTHERS: &[Item] = &[
     it("o4", PRE_O4, Ty::Obj, false),
     it("o5", PRE_O5, Ty::Obj, false),
     it("o6", PRE_O6, Ty::Obj, false),
+    // @iterator that returns the object itself / another object whose @iterator returns it
+    // (make_iterator nesting limit, commit 47b1155)
+    it("o7", PRE_O7, Ty::Obj, false),
+    it("o8", PRE_O8, Ty::Obj, false),
+    it("{@iterator: || {@iterator: || {@iterator: || (1, 2)}}}", &[], Ty::Obj, false),
 ];
 
 fn all_items() -> Vec<Item> {
@@ -447,6 +454,14 @@ fn program_cases(thorough: bool, rng: &mut Rng, f: &mut dyn FnMut(Case)) {
             ("({a})({a})", "op:call"),
             ("x = [{a}, {a}]\nx.sort()\nx", "list.sort"),
             ("x = {{a}: 1}\nx", "op:map-key"),
+            // map keys from the whole pool (NaN, -0.0, ranges, …) through update / insert / get / remove
+            ("m = {}\nm.update({a}, |x| x)\nm", "map.update"),
+            ("m = {}\nm.update({a}, 0, |x| x + 1)\nm.update({a}, 0, |x| x + 1)\nsize m", "map.update"),
+            ("m = {}\nm.insert({a}, 1)\n(m.get({a}), m.contains_key({a}), m.remove({a}), size m)", "map.insert"),
+            // list.retain with predicates that resize the list
+            ("x = [1, 2, 3, 4]\nx.retain |v|\n  x.pop()\n  {a} != 'zz'\nx", "list.retain"),
+            ("x = [1, 2, 3, 4]\nx.retain |v|\n  x.clear()\n  true\nx", "list.retain"),
+            ("x = [1, 2, 3, 4]\nx.retain |v|\n  x.push({a})\n  v != 2\nx", "list.retain"),
         ] {
             let body = t.replace("{a}", a.expr);
             f(mk(&[a], body, vec![api.to_string()]));
@@ -474,7 +489,15 @@ fn program_cases(thorough: bool, rng: &mut Rng, f: &mut dyn FnMut(Case)) {
                              ("match ({a})..=({b})\n  (..., y) then y\n  else 3", "op:match-range"),
                              ("x, y = ({a})..=({b})\nx", "op:unpack-range"),
                              ("(({a})..({b})).iter().next_back()", "iterator.next_back"), ("(({a})..=({b})).iter().next_back()", "iterator.next_back"),
-                             ("(({a})..=({b})).iter().next()", "iterator.next")] {
+                             ("(({a})..=({b})).iter().next()", "iterator.next"),
+                             // number.step_to from both ends, at the limits, with zero / negative / huge steps
+                             ("(({a}).step_to({b})).take(3).to_tuple()", "number.step_to"),
+                             ("(({a}).step_to({b})).reversed().take(3).to_tuple()", "number.step_to"),
+                             ("(({a}).step_to(0, {b})).take(3).to_tuple()", "number.step_to"),
+                             ("(({a}).step_to({b}, 0)).take(3).to_tuple()", "number.step_to"),
+                             ("(({a}).step_to({b}, {b})).reversed().take(2).to_tuple()", "number.step_to"),
+                             ("(({b}).step_to({a}, 9223372036854775807)).to_tuple()", "number.step_to"),
+                             ("i = ({a}).step_to({b}, 4611686018427387904)\n(i.next_back(), i.next(), i.next_back(), i.next())", "number.step_to")] {
                 let body = t.replace("{a}", a.expr).replace("{b}", b.expr);
                 f(mk(&[a, b], body, vec![api.to_string()]));
             }
@@ -562,7 +585,7 @@ fn collect_files(dir: &std::path::Path, out: &mut Vec<std::path::PathBuf>) {
 /// (name, text): every .koto file and every ```koto fenced block of the docs
 fn corpus_sources() -> Vec<(String, String)> {
     let mut files = vec![];
-    collect_files(std::path::Path::new("/repo"), &mut files);
+    collect_files(std::path::Path::new(&repo_root()), &mut files);
     let mut out = vec![];
     for f in files {
         let Ok(text) = std::fs::read_to_string(&f) else { continue };
@@ -670,4 +693,183 @@ fn token_vocabulary(sources: &[(String, String)]) -> Vec<String> {
 
 fn compile_case(text: String, group: &'static str) -> Case {
     Case { kind: 'C', text, group, apis: vec!["compile".into(), "format".into(), "display".into()] }
+}
+
+// ---- (d) control-flow endings: bodies whose final statement is a control-flow statement nested in
+//          blocks without else (class of aad4e1c: a function ran off the end of its bytecode) -------------
+
+/// a block: lines that open it (relative indent, text), the indent of the nested body, and lines
+/// that close it
+struct Blk {
+    open: &'static [(usize, &'static str)],
+    body: usize,
+    close: &'static [(usize, &'static str)],
+}
+
+const BLOCKS: &[Blk] = &[
+    Blk { open: &[(0, "if c")], body: 1, close: &[] },
+    Blk { open: &[(0, "if not c")], body: 1, close: &[] },
+    Blk { open: &[(0, "if c"), (1, "k += 1"), (0, "else if k > 5")], body: 1, close: &[] },
+    Blk { open: &[(0, "for x in (1, 2)")], body: 1, close: &[] },
+    Blk { open: &[(0, "while k < 2"), (1, "k += 1")], body: 1, close: &[] },
+    Blk { open: &[(0, "until k >= 2"), (1, "k += 1")], body: 1, close: &[] },
+    Blk { open: &[(0, "try")], body: 1, close: &[(0, "catch e"), (1, "k")] },
+    Blk { open: &[(0, "try"), (1, "throw 'inner'"), (0, "catch e")], body: 1, close: &[] },
+    Blk { open: &[(0, "try"), (1, "k"), (0, "catch e"), (1, "k"), (0, "finally")], body: 1, close: &[] },
+    Blk { open: &[(0, "match c"), (1, "true then")], body: 2, close: &[] },
+    Blk { open: &[(0, "match c"), (1, "false then 0"), (1, "else")], body: 2, close: &[] },
+    Blk { open: &[(0, "switch"), (1, "c then")], body: 2, close: &[] },
+];
+
+const FINALS: &[&str] = &["return", "return 42", "return (1, 2)", "break", "break 5", "continue", "throw 'x'", "yield 7", "return yield 8"];
+
+fn control_flow_cases(thorough: bool, rng: &mut Rng, f: &mut dyn FnMut(Case)) {
+    let api = vec!["gen:control-flow-ending".to_string()];
+    let emit = |body: Vec<(usize, String)>, f: &mut dyn FnMut(Case)| {
+        // three embeddings of the same body: function, generator (a yield first), top level
+        for variant in 0..3 {
+            let mut s = String::new();
+            let base = if variant == 2 { 0 } else { 1 };
+            match variant {
+                0 => s.push_str("f = |c|\n  k = 0\n"),
+                1 => s.push_str("f = |c|\n  k = 0\n  yield k\n"),
+                _ => s.push_str("c = true\nk = 0\n"),
+            }
+            for (ind, l) in &body {
+                for _ in 0..(base + ind) {
+                    s.push_str("  ");
+                }
+                s.push_str(l);
+                s.push('\n');
+            }
+            match variant {
+                0 => s.push_str("r = []\nfor a in (true, false, null, 1)\n  try\n    r.push f(a)\n  catch e\n    r.push 'err'\nr\n"),
+                1 => s.push_str("r = []\nfor a in (true, false, null, 1)\n  try\n    r.push f(a).to_tuple()\n  catch e\n    r.push 'err'\nr\n"),
+                _ => {}
+            }
+            f(Case { kind: 'R', text: s, group: "control-flow-ending", apis: api.clone() });
+        }
+    };
+    let build = |chain: &[&Blk], fin: &str, prefix: bool| -> Vec<(usize, String)> {
+        let mut lines: Vec<(usize, String)> = vec![];
+        if prefix {
+            lines.push((0, "k += 10".to_string()));
+        }
+        let mut ind = 0;
+        let mut closes: Vec<(usize, &'static [(usize, &'static str)])> = vec![];
+        for b in chain {
+            for (i, l) in b.open {
+                lines.push((ind + i, l.to_string()));
+            }
+            closes.push((ind, b.close));
+            ind += b.body;
+        }
+        lines.push((ind, fin.to_string()));
+        for (ci, cl) in closes.iter().rev() {
+            for (i, l) in cl.iter() {
+                lines.push((ci + i, l.to_string()));
+            }
+        }
+        lines
+    };
+    // depth 0 (the statement itself) and inline forms
+    for fin in FINALS {
+        emit(vec![(0, fin.to_string())], f);
+        emit(vec![(0, format!("if c then {}", fin))], f);
+    }
+    // depth 1 and 2: complete; depth 3: complete in thorough, seeded sample in quick
+    for b1 in BLOCKS {
+        for fin in FINALS {
+            for prefix in [false, true] {
+                emit(build(&[b1], fin, prefix), f);
+            }
+            for b2 in BLOCKS {
+                emit(build(&[b1, b2], fin, false), f);
+                for b3 in BLOCKS {
+                    if !thorough && !rng.chance(1, 8) {
+                        continue;
+                    }
+                    emit(build(&[b1, b2, b3], fin, false), f);
+                }
+            }
+        }
+    }
+}
+
+// ---- (e) register pressure: fill a frame's registers to ~240..255, then compile every form
+//          (class of fa404dd: compile_make_sequence with no temporary register left) -----------------------
+
+/// expression forms (one line)
+const EXPR_FORMS: &[&str] = &[
+    "[1, 2]", "(1, 2)", "[1, 2, 3, 4, 5]", "(x, y, x)", "{a: 1, b: 2}", "[[1, 2], (3, 4)]", "{a: [1, 2], b: (x, y)}",
+    "'{x} and {y}'", "'{x:>5} {y:.2}'", "'a {[1, 2]} b'", "g(1, 2)", "g(x, [1, 2], (3, 4))", "g(xs...)", "g(1, xs..., 2)",
+    "xs[0]", "xs[0..1]", "xs[1..]", "m.a", "m.get('a')", "xs.first()", "xs.iter().skip(1).take(1).to_tuple()", "m?.a?.b",
+    "x..y", "x..=y", "(x..y).to_tuple()", "1 + 2 * 3", "x + y * x - y", "1 < 2 < 3", "x < y <= x", "x and y or x", "not x",
+    "-x", "if x then [1, 2] else (3, 4)", "|a, b| [a, b]", "(|a| (a, a))(1)", "xs.each(|v| [v, v]).to_list()",
+    "size [1, 2, 3]", "koto.type (1, 2)", "'x'", "null", "x = y = [1, 2]", "(a2, b2 = 1, 2)", "[(1, 2), [3, 4], {k: (5, 6)}]",
+    "{@+: |o| [1, 2]}", "xs.fold(0, |a, b| a + b)", "match x\n    1 then [1, 2]\n    else (3, 4)",
+];
+
+/// statement forms (possibly several lines; `~` marks the statement's own indentation)
+const STMT_FORMS: &[&str] = &[
+    "a2, b2 = 1, 2", "a2, b2 = xs", "a2, b2..., c2 = 1, 2, 3, 4", "(a2, b2), c2 = (1, 2), 3", "xs[0] = [1, 2]", "m.a = (1, 2)", "x += 1",
+    "for a2, b2 in ((1, 2), (3, 4))\n~  [a2, b2]", "for v in [1, 2]\n~  (v, v)", "while false\n~  [1, 2]",
+    "match xs\n~  (a2, b2) then [a2, b2]\n~  [a2, rest...] then (a2, rest)\n~  else [1, 2]",
+    "match x, y\n~  1, 2 then [1, 2]\n~  else (3, 4)", "switch\n~  x == 1 then [1, 2]\n~  else (3, 4)",
+    "try\n~  throw [1, 2]\n~catch e\n~  (e, e)", "try\n~  [1, 2]\n~catch e\n~  e\n~finally\n~  (1, 2)",
+    "h = |a, b = [1, 2], c...| (a, b, c)\n~h(1)", "h = || yield [1, 2]\n~h().to_tuple()", "export z9 = [1, 2]", "debug [1, 2]",
+    "assert_eq [1, 2], [1, 2]", "print '{x} {y}'", "return [1, 2]", "throw (1, 2)", "if x\n~  [1, 2]\n~else\n~  (3, 4)",
+    "let q: List = [1, 2]", "from koto import type, size", "import number.pi as pp",
+];
+
+fn register_pressure_cases(thorough: bool, f: &mut dyn FnMut(Case)) {
+    let api = vec!["gen:register-pressure".to_string()];
+    let pre = "g = |args...| size args\nx = 1\ny = 2\nxs = [1, 2, 3]\nm = {a: {b: 1}}\n";
+    let levels: Vec<usize> = if thorough { (236..=256).collect() } else { vec![240, 246, 248, 249, 250, 251, 252, 253, 254, 255] };
+    let emit = |text: String, f: &mut dyn FnMut(Case)| f(Case { kind: 'R', text, group: "register-pressure", apis: api.clone() });
+    for &n in &levels {
+        let zeros = |k: usize| vec!["0"; k].join(", ");
+        for e in EXPR_FORMS {
+            let inline = !e.contains("\n");
+            if inline {
+                // B. many call arguments, the form last / first
+                emit(format!("{}g({}, {})\n", pre, zeros(n), e), f);
+                emit(format!("{}g({}, {}, 0)\n", pre, e, zeros(n.saturating_sub(2))), f);
+                // D. nested binary operations hold one temporary per level
+                let mut s = String::new();
+                for _ in 0..n {
+                    s.push_str("1 + (");
+                }
+                s.push_str(&format!("size [{}]", e));
+                for _ in 0..n {
+                    s.push(')');
+                }
+                emit(format!("{}r = {}\n", pre, s), f);
+                // E. a long list / tuple / map literal with the form as its last entry
+                emit(format!("{}r = [{}, {}]\n", pre, zeros(n), e), f);
+                emit(format!("{}r = ({}, {})\n", pre, zeros(n), e), f);
+                // F. a long interpolated string
+                let parts: String = (0..n.min(250)).map(|_| "{0}").collect();
+                emit(format!("{}r = '{}{{{}}}'\n", pre, parts, e.replace('\'', "\"")), f);
+                // C. locals + call arguments
+                let locals: String = (0..200).map(|i| format!("  v{} = {}\n", i, i)).collect();
+                emit(format!("{}f = ||\n{}  g({}, {})\nf()\n", pre, locals, zeros(n.saturating_sub(200)), e), f);
+            }
+            // A. many locals, then the form as a statement in the same frame
+            let locals: String = (0..n).map(|i| format!("  v{} = {}\n", i, i)).collect();
+            emit(format!("{}f = ||\n{}  r = {}\n  r\nf()\n", pre, locals, e), f);
+        }
+        for st in STMT_FORMS {
+            let locals: String = (0..n).map(|i| format!("  v{} = {}\n", i, i)).collect();
+            emit(format!("{}f = ||\n{}  {}\nf()\n", pre, locals, st.replace('~', "  ")), f);
+            // G. locals + captures (Frame::new) — the inner function captures 12 outer locals
+            let outer: String = (0..12).map(|i| format!("c{} = {}\n", i, i)).collect();
+            let caps: String = (0..12).map(|i| format!("c{}", i)).collect::<Vec<_>>().join(" + ");
+            let locals2: String = (0..n.saturating_sub(14)).map(|i| format!("  v{} = {}\n", i, i)).collect();
+            emit(format!("{}{}f = ||\n{}  {}\n  {}\nf()\n", pre, outer, locals2, st.replace('~', "  "), caps), f);
+            // at the top level (the main chunk's frame)
+            let locals0: String = (0..n).map(|i| format!("v{} = {}\n", i, i)).collect();
+            emit(format!("{}{}{}\n", pre, locals0, st.replace('~', "")), f);
+        }
+    }
 }
